@@ -178,6 +178,38 @@ Definition emit_leaves (path : list (PathEl T)) (ls : list (Z * (T * T) * CubicB
 
 End Source.
 
+(** ** CurveDist::from_curve (fit.rs 233-260): the N_SAMPLE = 20 samples a candidate cubic is
+    compared against, and the "spicy" flag. [step = (end - start) * (1.0 / 21.0)]; the loop runs
+    i = 0 .. 21 (for the flag) and keeps the samples i = 1 .. 20. *)
+Definition cd_step (s e : T) : T := (e - s) * (f1 / fofZ 21).
+(* the parameter of loop iteration i *)
+Definition cd_t (s e : T) (i : Z) : T := s + fofZ i * cd_step s e.
+Definition cd_indices : list Z := [0; 1; 2; 3; 4; 5; 6; 7; 8; 9; 10; 11; 12; 13; 14; 15; 16; 17; 18; 19; 20; 21]%Z.
+(* all 22 parameters sample_pt_tangent(., 1.0) is called with, in order *)
+Definition cd_ts (s e : T) : list T := map (cd_t s e) cd_indices.
+(* the kept ones: i > 0 && i < N_SAMPLE + 1 *)
+Definition cd_kept_ts (s e : T) : list T :=
+  map (cd_t s e) (filter (fun i => (0 <? i)%Z && (i <? 21)%Z) cd_indices).
+Definition spicy_thresh : T := flit 0x1.999999999999ap-3%float (1 # 5).
+
+Section CurveDist.
+Variable sample_pt_tangent : T -> T -> Sample.
+Fixpoint cd_spicy_loop (last_tan : option (Vec2 T)) (spicy : bool) (tans : list (Vec2 T)) : bool :=
+  match tans with
+  | [] => spicy
+  | tn :: r =>
+      let spicy :=
+        match last_tan with
+        | Some lt => if fabs (v_cross tn lt) >? spicy_thresh * fabs (v_dot tn lt) then true else spicy
+        | None => spicy
+        end in
+      cd_spicy_loop (Some tn) spicy r
+  end.
+Definition cd_from_curve (s e : T) : list Sample * bool :=
+  (map (fun t => sample_pt_tangent t f1) (cd_kept_ts s e),
+   cd_spicy_loop None false (map (fun t => s_tan (sample_pt_tangent t f1)) (cd_ts s e))).
+End CurveDist.
+
 (** ** PathSeg::tangents (bezpath.rs 1213-1253) *)
 Definition tan_eps : T := flit 0x1.19799812dea11p-40%float (1 # 1000000000000).
 
